@@ -869,7 +869,7 @@ class EntryGraph:
                 kind = 'ok'
                 if v0 is not None and v0[0] == 't' and body['locals'][0].startswith('core::result::Result<') and v0[1] == 1:
                     kind = 'err'
-                self.exits.append((sid, kind, ''))
+                self.exits.append((sid, kind, v0))
             else:
                 p = ctx.parent
                 pt = p.body['blocks'][ctx.callbb]['term']
@@ -987,6 +987,24 @@ class EntryGraph:
             return False
         r = self.reach(None, fact_nodes, fact_edges)
         return not (r & oks)
+
+    def exit_sids(self, pred):
+        """success-exit state ids whose abstract return value satisfies pred(v0)"""
+        return [s for s, k, v in self.exits if k == 'ok' and pred(v)]
+
+    def states_after(self, nodes, blocked_nodes=(), blocked_edges=()):
+        starts = []
+        for n in nodes:
+            for s in self.node_states.get(n, []):
+                starts.extend(d for d, _ in self.succ[s])
+        return self.reach(starts, blocked_nodes, blocked_edges) if starts else set()
+
+    def states_after_edges(self, edge_list, blocked_nodes=(), blocked_edges=()):
+        starts = []
+        for (cid, bb, label) in edge_list:
+            for s in self.node_states.get((cid, bb), []):
+                starts.extend(d for d, lab in self.succ[s] if lab == label)
+        return self.reach(starts, blocked_nodes, blocked_edges) if starts else set()
 
     def path_to(self, node, blocked_nodes=(), blocked_edges=()):
         """a witness path (list of (ctx id, bb)) from entry to node avoiding blocked facts"""
